@@ -72,23 +72,84 @@ theorem iteration_eq_regex_iterator {capsAt : Nat → Option Caps} {len : Nat} (
     (start : Nat) : collect capsAt len (len + 2) start none [] = allMatches capsAt len start :=
   collect_eq_allMatches hs start
 
-/-- The printer's replacement buffer for the range `[rs, re)`: every match starting before `re` is
+/-- The printer's replacement buffer for the range `[rs, re)`: every match the printer keeps (`keep`:
+it starts before `re`, or exactly at `re` when the range ends the haystack without a terminator) is
 replaced by the interpolated template, everything else is copied verbatim. -/
 theorem replace_in_context_eq (capsAt : Nat → Option Caps) (names : List (Bytes × Nat))
-    (bytes : Bytes) (rs re : Nat) (tmpl : Bytes) (hs : Sane capsAt bytes.length) :
-    (replaceWithCapturesInContext capsAt names bytes rs re tmpl).dst =
+    (bytes : Bytes) (rs re : Nat) (atEnd : Bool) (tmpl : Bytes) (hs : Sane capsAt bytes.length) :
+    (replaceWithCapturesInContext capsAt names bytes rs re atEnd tmpl).dst =
       replaceAllSpec bytes (fun c => interpolate (envOf bytes names c) tmpl)
-        ((allMatches capsAt bytes.length rs).takeWhile (fun c => decide ((sp c).s < re)))
+        ((allMatches capsAt bytes.length rs).takeWhile (keep re atEnd))
         rs (min bytes.length re) :=
-  replace_eq_spec capsAt names bytes rs re tmpl hs
+  replace_eq_spec capsAt names bytes rs re atEnd tmpl hs
 
-/-- Full statement at line level: the buffer is the replace-all over *all* matches of the haystack. -/
-def C19_full : Prop :=
-  ∀ (capsAt : Nat → Option Caps) (names : List (Bytes × Nat)) (bytes : Bytes) (rs re : Nat) (tmpl : Bytes),
-    Sane capsAt bytes.length →
-    (replaceWithCapturesInContext capsAt names bytes rs re tmpl).dst =
-      replaceAllSpec bytes (fun c => interpolate (envOf bytes names c) tmpl)
-        (allMatches capsAt bytes.length rs) rs (min bytes.length re)
+/-- **Line level, reference grammar** (after the repair of F6 the end-of-line case needs no guard):
+when the range reaches at least to the end of the haystack — the line's terminator was cut off
+(`bytes.length < re`) or the line has none and the flag computed by `is_at_unterminated_end` is set —
+the buffer is the regex crate's replace-all of the haystack from `rs` on, over **all** its matches. -/
+theorem C19_buffer (capsAt : Nat → Option Caps) (names : List (Bytes × Nat))
+    (bytes : Bytes) (rs re : Nat) (atEnd : Bool) (tmpl : Bytes) (hs : Sane capsAt bytes.length)
+    (hend : bytes.length < re ∨ (bytes.length = re ∧ atEnd = true)) (hok : braceOk tmpl = true)
+    (henv : ∀ c, EnvOk (envOf bytes names c)) :
+    (replaceWithCapturesInContext capsAt names bytes rs re atEnd tmpl).dst =
+      replaceAllSpec bytes (fun c => expand (envOf bytes names c) tmpl)
+        (allMatches capsAt bytes.length rs) rs bytes.length := by
+  rw [replace_in_context_eq capsAt names bytes rs re atEnd tmpl hs]
+  have hall : ∀ c ∈ allMatches capsAt bytes.length rs, keep re atEnd c = true := by
+    intro c hc
+    obtain ⟨p, hp⟩ := specIter_mem hc
+    have h1 := hs.le p c hp
+    have h2 := hs.bound p c hp
+    unfold keep
+    rcases hend with h | ⟨h, ha⟩
+    · have : (sp c).s < re := by omega
+      simp [this]
+    · subst ha
+      by_cases hlt : (sp c).s < re
+      · simp [hlt]
+      · have : (sp c).s = re := by omega
+        simp [this]
+  rw [takeWhile_all _ _ hall]
+  have hmin : min bytes.length re = bytes.length := by omega
+  rw [hmin]
+  have hexp : (fun c => interpolate (envOf bytes names c) tmpl) =
+      fun c => expand (envOf bytes names c) tmpl := by
+    funext c; exact interpolate_eq_spec _ (henv c) tmpl hok
+  rw [hexp]
+
+/-- **C19 for a line of a line-oriented search** (`Replacer::replace_all`, non-multi-line branch): for the
+range `[rs, re)` of `haystack`, `rs ≤ re ≤ |haystack|`, the buffer is the replace-all — reference template
+grammar, every match, unmatched text intact — of the haystack cut at the line's content end `hay`.
+No guard on the line: terminated or not. -/
+theorem C19_line (t : LineTerm) (capsAtOf : Bytes → Nat → Option Caps) (names : List (Bytes × Nat))
+    (haystack : Bytes) (rs re : Nat) (tmpl : Bytes)
+    (hrange : rs ≤ re ∧ re ≤ haystack.length)
+    (hs : ∀ hay, Sane (capsAtOf hay) hay.length)
+    (hok : braceOk tmpl = true) (henv : ∀ hay c, EnvOk (envOf hay names c))
+    (hay : Bytes) (hhay : hay = haystack.take (trimLineTerminator t haystack 0 re)) :
+    (replaceAllLine t capsAtOf names haystack rs re tmpl).dst =
+      replaceAllSpec hay (fun c => expand (envOf hay names c) tmpl)
+        (allMatches (capsAtOf hay) hay.length rs) rs hay.length := by
+  unfold replaceAllLine
+  simp only
+  rw [← hhay]
+  apply C19_buffer (capsAtOf hay) names hay rs re _ tmpl (hs hay) _ hok (henv hay)
+  rcases trim_cases t haystack re hrange.2 with hlt | ⟨heq, hns⟩
+  · left
+    rw [hhay, List.length_take]; omega
+  · right
+    rw [heq] at hhay
+    subst hhay
+    refine ⟨by rw [List.length_take]; omega, atEnd_of_unterminated t haystack rs re hrange hns⟩
+
+/-- Lines without a match are never altered: with no match the buffer is the range itself. -/
+theorem unmatched_text_intact (capsAt : Nat → Option Caps) (names : List (Bytes × Nat))
+    (bytes : Bytes) (rs re : Nat) (atEnd : Bool) (tmpl : Bytes) (hs : Sane capsAt bytes.length)
+    (hnone : allMatches capsAt bytes.length rs = []) :
+    (replaceWithCapturesInContext capsAt names bytes rs re atEnd tmpl).dst =
+      slice bytes rs (min bytes.length re) := by
+  rw [replace_in_context_eq capsAt names bytes rs re atEnd tmpl hs, hnone]
+  simp [replaceAllSpec, slice]
 
 /-- the matcher of the pattern `a*` on the haystack `b`: an empty match at 0 and at 1 -/
 def emptyEverywhere : Nat → Option Caps :=
@@ -108,51 +169,17 @@ theorem emptyEverywhere_sane : Sane emptyEverywhere 1 := by
       subst this; simp [*]
     · simp at h
 
-/-- It fails on the current tree (finding F6): on an unterminated last line the empty match at the very
-end is dropped (`m.start() >= range.end`): `printf b | rg -r X 'a*'` prints `Xb`, replace-all gives `XbX`. -/
-theorem C19_full_fails : ¬ C19_full := by
-  intro h
-  have hfull := h emptyEverywhere [] [98] 0 1 [88] emptyEverywhere_sane
-  have hpart := replace_in_context_eq emptyEverywhere [] [98] 0 1 [88] emptyEverywhere_sane
-  rw [hpart] at hfull
+/-- Non-vacuity and regression witness for F6 (repaired by `fix:` commits bde00ef, 5c7b049): `a*` on the
+unterminated line `b` with template `X` gives `XbX` — the empty match at the very end is replaced
+(before the repair the code, and the model of it, produced `Xb`); all hypotheses of `C19_buffer` hold. -/
+example :
+    Sane emptyEverywhere 1 ∧ isAtUnterminatedEnd (.byte 10) [98] 0 1 = true ∧ braceOk [88] = true ∧
+    (replaceWithCapturesInContext emptyEverywhere [] [98] 0 1 true [88]).dst = [88, 98, 88] := by
+  refine ⟨emptyEverywhere_sane, by decide, by decide, ?_⟩
+  rw [replace_in_context_eq emptyEverywhere [] [98] 0 1 true [88] emptyEverywhere_sane]
   have hexp : (fun c => interpolate (envOf [98] [] c) [88]) = fun _ => [88] := by
     funext c; exact interpolate_no_dollar _ [88] (by decide)
-  rw [hexp] at hfull
-  revert hfull
-  decide
-
-/-- **Proved part** (the line carries its terminator, so `re` lies beyond the cut haystack): the
-replacement buffer is the regex crate's replace-all of the haystack from `rs` on, with the reference
-template grammar, unmatched text intact. -/
-theorem C19_partial (capsAt : Nat → Option Caps) (names : List (Bytes × Nat))
-    (bytes : Bytes) (rs re : Nat) (tmpl : Bytes) (hs : Sane capsAt bytes.length)
-    (hterm : bytes.length < re) (hok : braceOk tmpl = true)
-    (henv : ∀ c, EnvOk (envOf bytes names c)) :
-    (replaceWithCapturesInContext capsAt names bytes rs re tmpl).dst =
-      replaceAllSpec bytes (fun c => expand (envOf bytes names c) tmpl)
-        (allMatches capsAt bytes.length rs) rs bytes.length := by
-  rw [replace_in_context_eq capsAt names bytes rs re tmpl hs]
-  have hall : ∀ c ∈ allMatches capsAt bytes.length rs, decide ((sp c).s < re) = true := by
-    intro c hc
-    obtain ⟨p, hp⟩ := specIter_mem hc
-    have h1 := hs.le p c hp
-    have h2 := hs.bound p c hp
-    simp; omega
-  rw [takeWhile_all _ _ hall]
-  have hmin : min bytes.length re = bytes.length := by omega
-  rw [hmin]
-  have hexp : (fun c => interpolate (envOf bytes names c) tmpl) =
-      fun c => expand (envOf bytes names c) tmpl := by
-    funext c; exact interpolate_eq_spec _ (henv c) tmpl hok
   rw [hexp]
-
-/-- Lines without a match are never altered: with no match the buffer is the range itself. -/
-theorem unmatched_text_intact (capsAt : Nat → Option Caps) (names : List (Bytes × Nat))
-    (bytes : Bytes) (rs re : Nat) (tmpl : Bytes) (hs : Sane capsAt bytes.length)
-    (hnone : allMatches capsAt bytes.length rs = []) :
-    (replaceWithCapturesInContext capsAt names bytes rs re tmpl).dst =
-      slice bytes rs (min bytes.length re) := by
-  rw [replace_in_context_eq capsAt names bytes rs re tmpl hs, hnone]
-  simp [replaceAllSpec, slice]
+  decide
 
 end RgVerif.Props.C19
